@@ -22,6 +22,9 @@ type ResSlot struct {
 	Kind string `json:"kind"` // "tok" (token type), "error" (interface error), "myerr" (*MyErr)
 	Type int    `json:"type,omitempty"`
 	Nil  bool   `json:"nil,omitempty"` // error kinds: return nil
+	// TypedNil (kind "error" only): return a non-nil error interface whose
+	// dynamic value is a nil *MyErr -- in Go that is an error, not "no error".
+	TypedNil bool `json:"typedNil,omitempty"`
 }
 
 type C17Case struct {
@@ -67,7 +70,11 @@ func evalC17(c *engine.Case) engine.Verdict {
 				slot.Set(engine.MakeValue(s.Type, 100+i))
 				returned = append(returned, slot.Interface())
 			case "error":
-				if s.Nil {
+				if s.TypedNil {
+					var e error = (*MyErr)(nil)
+					slot.Set(reflect.ValueOf(e))
+					returned = append(returned, e)
+				} else if s.Nil {
 					returned = append(returned, nil)
 				} else {
 					e := &engine.FailErr{Func: 1, Exec: i}
@@ -162,8 +169,14 @@ func evalC17(c *engine.Case) engine.Verdict {
 		}
 	}
 	var wantErr error
-	if finalErr && !x.Slots[n-1].Nil {
+	if finalErr && (!x.Slots[n-1].Nil || x.Slots[n-1].TypedNil) {
 		wantErr = returned[n-1].(error)
+	}
+	for _, sl := range x.Slots {
+		if sl.Kind == "error" && sl.TypedNil {
+			v.Class("typed-nil-error")
+			break
+		}
 	}
 	if got := res.Err(); got != wantErr {
 		v.Failf("Err() = %v, want %v", got, wantErr)
@@ -176,10 +189,16 @@ func genC17(g engine.G) *engine.Case {
 	n := g.Int(0, 4)
 	for i := 0; i < n; i++ {
 		s := ResSlot{Kind: engine.Pick(g, []string{"tok", "tok", "tok", "error", "myerr"}), Type: g.Int(0, 5), Nil: g.Bool()}
+		s.TypedNil = g.Pct(20)
 		x.Slots = append(x.Slots, s)
 	}
 	if n > 0 && g.Pct(50) {
 		x.Slots[n-1].Kind = "error"
+	}
+	for i := range x.Slots {
+		if x.Slots[i].Kind != "error" {
+			x.Slots[i].TypedNil = false
+		}
 	}
 	x.Unsatisfied = g.Pct(10)
 	c := &engine.Case{}
